@@ -63,6 +63,7 @@ class Report:
         self.inst(rule, key, "reviewed", where, detail)
 
     def check(self, cond, rule, key, where="", ok_detail="", bad_detail=""):
+        cond = bool(cond)
         if cond:
             self.ok(rule, key, where, ok_detail)
         else:
